@@ -9,6 +9,56 @@ from . import arrays, reals
 from .reals import to_real, rv
 
 
+SIGMA = None
+
+
+def sigma_fn():
+    """Sigma(f, n) = f(0) + ... + f(n-1): uninterpreted (only congruence is used: equal summands and equal bounds give
+    equal sums)"""
+    global SIGMA
+    if SIGMA is None:
+        SIGMA = z3.Function("Sigma", z3.ArraySort(I, R), I, R)
+    return SIGMA
+
+
+def sigma_term(body, n, ctx=None):
+    """body: python function of a z3 Int giving a real term; while the body is evaluated the summation index is known
+    to be in range (so indexing with it raises nothing)"""
+    k = z3.Int("k!sigma")
+    if ctx is not None:
+        mark = len(ctx.pc)
+        ctx.pc.append(z3.And(k >= 0, k < lift(n)))
+        try:
+            b = body(k)
+        finally:
+            del ctx.pc[mark]
+    else:
+        b = body(k)
+    b = to_real(b)
+    return sigma_fn()(z3.Lambda([k], b), lift(n))
+
+
+def sym_sum(it_, ctx, gen, start):
+    if not ctx.branch(num_cmp(">", gen.n, 0)):
+        return start
+    k0 = z3.Int("k!probe")
+    probe = gen.item(k0)
+    if is_scalar(probe) and not isinstance(probe, Cx):
+        total = sigma_term(lambda k: gen.item(k), gen.n, ctx)
+        return it_.binop("+", start, total, ctx)
+    if isinstance(probe, SymArr):
+        n_out = probe.n
+
+        def elem(i):
+            return sigma_term(lambda k: gen.item(k).elem(i), gen.n, ctx)
+        res = SymArr(n_out, elem)
+        return it_.binop("+", start, res, ctx) if not (isinstance(start, int) and start == 0) else res
+    if isinstance(probe, Vec) and probe.ndim == 1:
+        res = Vec([sigma_term((lambda j: lambda k: gen.item(k).data[j])(j), gen.n, ctx) for j in range(len(probe.data))])
+        return it_.binop("+", start, res, ctx) if not (isinstance(start, int) and start == 0) else res
+    raise Unsupported("sum over a symbolic-length generator of %r" % (probe,))
+
+
 def install(it):
     B = it.builtins
 
@@ -120,6 +170,8 @@ def install(it):
             return len(x)
         if arrays.is_arr(x):
             return arrays.arr_len(x)
+        if isinstance(x, MaskedSel):
+            return arrays.count_term(ctx, x.mask)
         if isinstance(x, symlist.SymList):
             return x.n
         if isinstance(x, absarr.AbsArr):
@@ -214,6 +266,9 @@ def install(it):
     reg("max", b_minmax("max"), True)
 
     def b_sum(it_, ctx, x, start=0):
+        from . import symlist
+        if isinstance(x, symlist.SymGen):
+            return sym_sum(it_, ctx, x, start)
         acc = start
         for e in (it_.iterate(x, ctx) if not (isinstance(x, Vec) and x.ndim == 1) else x.data):
             acc = it_.binop("+", acc, e, ctx)
